@@ -5,6 +5,7 @@ package harness
 // StreamManager against the scripted peer.
 
 import (
+	"runtime"
 	"strings"
 	"fmt"
 	"sync"
@@ -83,6 +84,13 @@ type c13Session struct {
 	out     *peer.Outcome
 	resumed bool
 	recvd   chan peer.Event
+}
+
+func firstOr(l []string, d string) string {
+	if len(l) > 0 {
+		return l[0]
+	}
+	return d
 }
 
 func runC13(c c13Case) vh.Result {
@@ -191,6 +199,20 @@ func runC13(c c13Case) vh.Result {
 	if cur == nil {
 		res.Fail("harness-first-connect", "first session not established")
 		return res
+	}
+	// for the record: every event the client emits from now on, with the goroutine that emitted it (the manager's
+	// handler is wrapped, not replaced)
+	var evLog []string
+	if orig := cl.Handler; orig != nil {
+		cl.Handler = func(e xmpp.Event) error {
+			buf := make([]byte, 64)
+			buf = buf[:runtime.Stack(buf, false)]
+			gid := strings.Fields(strings.TrimPrefix(string(buf), "goroutine "))
+			mu.Lock()
+			evLog = append(evLog, fmt.Sprintf("+%v state=%d g%s", time.Since(t00).Round(time.Millisecond), xmpp.VerifEventState(e), firstOr(gid, "?")))
+			mu.Unlock()
+			return orig(e)
+		}
 	}
 	expectPost := 1
 	msgN := 0
@@ -319,6 +341,9 @@ func runC13(c c13Case) vh.Result {
 				time.Sleep(300 * time.Millisecond) // let the extra connection get as far as it gets, for the record
 				mu.Lock()
 				log := strings.Join(connLog, "; ")
+				mu.Unlock()
+				mu.Lock()
+				log += " | events: " + strings.Join(evLog, "; ")
 				mu.Unlock()
 				res.Fail("retry-after-permanent-error", "%s: credentials were rejected (permanent error) but %d further connection attempts followed; connections: %s", desc, got-len(l.Fails)-1, log)
 			}
